@@ -277,6 +277,8 @@ func runC05(c *Ctx) {
 	checkEvictedAddressesAreWiped(c, "C05-R2")
 	checkWipePrimitiveCoversWholeSlice(c, "C05-R2")
 	checkUnlockedFlagSetLast(c, "C05-R3")
+	// a passphrase change leaves the keys of an unlocked manager usable: no live key is wiped through an alias
+	checkNoWipeThroughAlias(c, "C05-R3")
 	// every place the managers keep address OBJECTS (which carry clear-text keys once unlocked) is visited by lock():
 	// the address cache, but also the per-account "last address" objects, which loadAccountInfo rebuilds from the
 	// private account key and which are not part of the address cache
